@@ -373,7 +373,12 @@ def mutate(rng, base, rule):
         for z in rng.sample(sorted(set(adj[a])), 2):
             c['eqpts'].insert(rng.randint(0, len(c['eqpts'])), {'a': a, 'z': z, 'east': gen_amp(rng, 0.5, False), 'west': dict(blank_amp)})
     elif rule == 'missing_header':
-        c['layout']['drop_header'] = rng.choice([('Nodes', 'City'), ('Links', 'Node A'), ('Links', 'Node Z'), ('Links', 'east')])
+        sheet, h = rng.choice([('Nodes', 'City'), ('Links', 'Node A'), ('Links', 'Node Z'), ('Links', 'east')])
+        # the header search of convert.py scans ten lines for a cell *containing* the label: a site called 'east'
+        # would be taken for the missing header
+        if any(isinstance(v, str) and h in v for rows in sheet_grids(c).values() for r in rows[5:] for v in r):
+            return None
+        c['layout']['drop_header'] = (sheet, h)
     # ---- inconsistent rows that no documented rule names (see known findings)
     elif rule == 'self_loop':
         a = rng.choice(cities)
@@ -1101,6 +1106,11 @@ def coq_eval(*a, **k):
             time.sleep(5 + 10 * attempt)
 
 
+def shard(terms, least):
+    """cases per generated file: 16 files (one per core), coqc start-up dominates small files"""
+    return max(least, -(-len(terms) // 16))
+
+
 class Timer:
     def __init__(self):
         self.t = {}
@@ -1140,9 +1150,9 @@ def run(ctx):
     if ctx.replay:
         corpus = [json.load(open(ctx.replay))['case']]
     else:
-        nvalid = ctx.scale(260, 3000)
-        nbig = ctx.scale(4, 60)
-        nmal = ctx.scale(150, 1500)
+        nvalid = ctx.scale(150, 3000)
+        nbig = ctx.scale(3, 60)
+        nmal = ctx.scale(96, 1500)
         valid = [gen_case(rng) for _ in range(nvalid)] + [gen_case(rng, big=True) for _ in range(nbig)]
         for c in valid:
             if rng.random() < 0.7:
@@ -1256,7 +1266,7 @@ def run(ctx):
         req_rows = []
         if not ctx.replay:
             base = [c for c in valid if c.get('services')]
-            for c in base[:ctx.scale(120, 1500)]:
+            for c in base[:ctx.scale(70, 1500)]:
                 for s in c['services']:
                     s = dict(s)
                     k = rng.random()
@@ -1272,7 +1282,7 @@ def run(ctx):
         req_results = [drive_request(s, k % 2 == 0) for k, s in enumerate(req_rows)]
     # ---------------- model evaluation and comparison
     t0 = time.time()
-    lines = coq_eval('C20', 'Prelude Model.Sheet Run.C20', terms, per_file=12, prelude='From Coq Require Import QArith.')
+    lines = coq_eval('C20', 'Prelude Model.Sheet Run.C20', terms, per_file=shard(terms, 8), prelude='From Coq Require Import QArith.')
     for (c, data, impl, exc), line in zip(meta, lines):
         if line.startswith('E:'):
             if impl is None:
@@ -1294,7 +1304,7 @@ def run(ctx):
     TM.add('coq_convert', t0)
     # services through read_service_sheet
     t0 = time.time()
-    lines = coq_eval('C20', 'Prelude Model.Sheet Run.C20', svc_terms, per_file=12, tag='svc',
+    lines = coq_eval('C20', 'Prelude Model.Sheet Run.C20', svc_terms, per_file=shard(svc_terms, 8), tag='svc',
                             prelude='From Coq Require Import QArith.')
     for (c, out, impl), line in zip(svc_meta, lines):
         if line.startswith('E:'):
@@ -1321,7 +1331,7 @@ def run(ctx):
     t0 = time.time()
     rterms = [f'req_case {equip_term()} {"true" if k % 2 == 0 else "false"} {listlit([req_row_term(s)])}'
               for k, s in enumerate(req_rows)]
-    lines = coq_eval('C20', 'Prelude Model.Sheet Run.C20', rterms, per_file=60, tag='req',
+    lines = coq_eval('C20', 'Prelude Model.Sheet Run.C20', rterms, per_file=shard(rterms, 20), tag='req',
                             prelude='From Coq Require Import QArith.')
     for s, res, line in zip(req_rows, req_results, lines):
         m = json.loads(line)[0]
